@@ -438,6 +438,11 @@ Theorem C13_two_node_exactly_one :
 Proof. exact two_node_exactly_one_settled. Qed.
 Print Assumptions C13_two_node_exactly_one.
 
+Theorem C13_two_node_responder_once :
+  forall (cfA cfB : cfg) (ms : list mv) (x : bool), NoDup (req_chans (log x (run2 (sys0 cfA cfB) ms))).
+Proof. exact two_node_responder_once. Qed.
+Print Assumptions C13_two_node_responder_once.
+
 (* The responder sees what the requester sent: a RequestReceived handed to the user at node b from
    a linked carrier carries, byte for byte, the request frame the other node wrote on the other end
    of that substream. *)
